@@ -490,7 +490,53 @@ class Histories(Contract):
                             reg.update(saved)
         res += self._getters_follow_the_registry()
         res += self._registration_wrappers()
+        res += self._listings_follow_the_registry()
         return res
+
+    def _listings_follow_the_registry(self):
+        """The listing helpers (`supported_file_extensions_data_io`, `data_io_plugin_table`) describe the plugin a short name
+        resolves to *now*: evaluated, re-pointed with `set_data_plugin`, evaluated again (bounded history on the real registry)."""
+        from glotaran.io.interface import DataIoInterface
+        from glotaran.plugin_system import base_registry, data_io_registration as dio
+
+        holder = getattr(base_registry, [n for n in dir(base_registry) if n.endswith("PluginRegistry")][0])
+        reg = holder.data_io
+        saved = dict(reg)
+
+        class Loader(DataIoInterface):
+            def load_dataset(self, file_name):
+                return None
+
+        class Saver(DataIoInterface):
+            def save_dataset(self, dataset, file_name):
+                return None
+
+        bad = None
+        try:
+            a, b = Loader("pyvczz"), Saver("pyvczz")
+            reg["pyvc.Loader_pyvczz"], reg["pyvc.Saver_pyvczz"], reg["pyvczz"] = a, b, a
+            seen = []
+            for step, (pin, want_load, want_save) in enumerate(((None, True, False), ("pyvc.Saver_pyvczz", False, True), (None, False, True), ("pyvc.Loader_pyvczz", True, False))):
+                if pin:
+                    dio.set_data_plugin("pyvczz", pin)
+                got_load = ".pyvczz" in list(dio.supported_file_extensions_data_io("load_dataset"))
+                got_save = ".pyvczz" in list(dio.supported_file_extensions_data_io("save_dataset"))
+                table = str(dio.data_io_plugin_table())
+                row = next((line for line in table.splitlines() if "`pyvczz`" in line or " pyvczz " in line), "")
+                seen.append((got_load, got_save))
+                if (got_load, got_save) != (want_load, want_save):
+                    bad = bad or f"step {step}: supported extensions say load={got_load}, save={got_save} for 'pyvczz' while the registry resolves it to a plugin with load={want_load}, save={want_save}"
+                if row and (("/" in row) or ("*" in row)):
+                    cells = [c.strip() for c in row.strip("|").split("|")]
+                    marks = [c for c in cells[1:3]]
+                    if len(marks) == 2 and [m in ("*", "/") for m in marks] == [True, True] and [m == "*" for m in marks] != [want_load, want_save]:
+                        bad = bad or f"step {step}: table row {row.strip()!r} does not describe the plugin the name resolves to (load={want_load}, save={want_save})"
+        except Exception as e:
+            bad = f"{type(e).__name__}: {e}"
+        finally:
+            reg.clear()
+            reg.update(saved)
+        return [{"name": "listings_describe_the_plugin_a_name_resolves_to_now[data_io]", "ok": bad is None, "detail": bad or "4 evaluations around 2 re-pointings", "witness": {"history": "list, set->Saver, list, list, set->Loader, list", "why": bad} if bad else None, "function": "glotaran.plugin_system.data_io_registration:supported_file_extensions_data_io", "strength": "B"}]
 
     def _registration_wrappers(self):
         """The public registration entry points (`register_megacomplex`, `register_data_io`, `register_project_io`) behave
